@@ -121,20 +121,20 @@ Proof. exact cfg_fixed_faithful. Qed.
 Theorem C07_cfg_partA_faithful : faithful cfg_partA.
 Proof. exact cfg_partA_faithful. Qed.
 
-Theorem C07_literal_deps_agree_stat : forall (l : literal) k d t x,
-  In (k, d) l -> fdyn d = false -> fbody d = Some t ->
+Theorem C07_literal_deps_agree_stat : forall (l : literal) k d x,
+  In (k, d) l -> fdyn d = false ->
   exists ds, In (k, ds) (deps_stat false (emb_stat l) []) /\
-             (In x ds <-> In x (filter (fun y => Lang.mem y (lit_scope l)) (c_an cfg_partA t))).
+             (In x ds <-> exists ds', field_deps cfg_partA (lit_scope l) d = Some ds' /\ In x ds').
 Proof. exact literal_deps_agree_stat. Qed.
 
-Theorem C07_literal_deps_agree_dyn : forall (l : literal) k d t x,
-  In (k, d) l -> fdyn d = true -> fbody d = Some t ->
+Theorem C07_literal_deps_agree_dyn : forall (l : literal) k d x,
+  In (k, d) l -> fdyn d = true ->
   exists ds, In ds (deps_dyn false (emb_stat l) [] (emb_dyn l)) /\
-             (In x ds <-> In x (filter (fun y => Lang.mem y (lit_scope l)) (c_an cfg_partA t))).
+             (In x ds <-> exists ds', field_deps cfg_partA (lit_scope l) d = Some ds' /\ In x ds').
 Proof. exact literal_deps_agree_dyn. Qed.
 
-(* the Rust code as it is ([cfg_current]: %record/insert% wraps the thunk of a dynamically named field)
-   runs like the patched one on histories without dynamically named fields ... *)
+(* the Rust code before fix 8192ce0 ([cfg_current]: %record/insert% wrapped the thunk of a dynamically
+   named field) runs like the fixed one on histories without dynamically named fields ... *)
 Theorem C07_static_history_same : forall b c h,
   hist_static h -> forall sd, irun_from (set_wrap b c) sd h = irun_from c sd h.
 Proof. exact static_history_same. Qed.
@@ -150,8 +150,8 @@ Theorem C07_history_fields_current : forall h i,
   end.
 Proof. exact history_fields_current. Qed.
 
-(* ... and violates the property on a dynamically named field that depends on an overridden field
-   (the real interpreter gives the same 11) *)
+(* ... and violated the property on a dynamically named field that depends on an overridden field
+   (the real interpreter gave the same 11) *)
 Theorem C07_dynamic_field_indirection_refuted :
   exists h i k, (forall l, In (SLit l) h -> NoDup (lit_names l)) /\
                 field_of cfg_current h i k = Ok 11 /\ spec_field_of h i k = Ok 6 /\
